@@ -126,6 +126,28 @@ class BT4Parser(B.BfeParser):
                 self.next()
                 body = ("assignexpr", body, self.parse_expr())
             return ("closure", pats, body)
+        if k == "id" and v == "vec" and self.peek(1)[1] == "!" and self.peek(2) == ("op", "["):
+            save = self.i
+            self.next(); self.next(); self.next()
+            if self.peek() != ("op", "]"):
+                x = self.parse_expr()
+                if self.accept(";"):
+                    n = self.parse_expr()
+                    self.expect("]")
+                    return ("vecrep", x, n)
+            self.i = save
+        if k == "op" and v == "(":
+            save = self.i
+            self.next()
+            try:
+                lo = self.parse_expr(len(self.BIN) - 2)
+                if self.accept(".."):
+                    hi = self.parse_expr(len(self.BIN) - 2)
+                    self.expect(")")
+                    return ("range", lo, hi)
+            except Unsupported:
+                pass
+            self.i = save
         if k == "id" and v == "MerkleTree" and self.peek(1) == ("op", "{") and self.peek(2)[0] == "id" \
                 and self.peek(3) == ("op", "}"):
             self.next(); self.next()
@@ -165,13 +187,27 @@ class BT4Parser(B.BfeParser):
             except Unsupported:
                 self.i = save
                 return B.BfeParser.stmt_hook(self, stmts)
-            if self.peek() != ("op", "{"):
-                self.i = save
+            if self.peek() != ("op", "{") or e[0] == "range" or (e[0] == "mcall" and e[1][0] == "range"):
+                self.i = save       # `a..b` / `(a..b).rev()`: the base parser's range loops
                 return B.BfeParser.stmt_hook(self, stmts)
             body = self.parse_block()
             self.accept(";")
             stmts.append(("foreach", None, "it_" if var == "_" else var, e, body, site))
             return True
+        # `a[i..j].clone_from_slice(&b[..k]);` (panics exactly when the lengths differ, like copy_from_slice)
+        if k == "id" and v not in ("let", "if", "while", "loop", "for", "return", "break", "continue", "assert",
+                                   "debug_assert", "match", "use", "fn"):
+            save = self.i
+            try:
+                e = self.parse_expr()
+            except Unsupported:
+                e = None
+            if e is not None and e[0] == "mcall" and e[2] == "clone_from_slice" and e[1][0] == "slice" and len(e[3]) == 1 \
+                    and self.peek() == ("op", ";"):
+                self.next()
+                stmts.append(("copyslice", e[1], e[3][0], [e[1][1]]))
+                return True
+            self.i = save
         return B.BfeParser.stmt_hook(self, stmts)
 
 
@@ -200,6 +236,9 @@ def _assigned_outer4(stmts, local=None):
         elif k == "foreach":
             for n in _assigned_outer4(st[4], local | {st[2]}):
                 add(n)
+        elif k == "mcallstmt" and st[1][2] == "collect_into_vec" and len(st[1][3]) == 1:
+            a = st[1][3][0]
+            add(L.lhs_base(a[1] if a[0] == "mutref" else a))
         else:
             for n in _assigned_outer_prev([st], local):
                 add(n)
@@ -395,6 +434,19 @@ class BT4Emitter(B.BfeEmitter):
             return "[" + ", ".join(p[0] for p in parts) + "]", ("array", inner), self.conj(*[p[1] for p in parts])
         if k == "veclit" and not e[1] and isinstance(exp, tuple) and exp[0] == "vec":
             return "[]", exp, None
+        if k == "vecrep":
+            self.check_no_partial(e[1])
+            self.check_no_partial(e[2])
+            inner = exp[1] if isinstance(exp, tuple) and exp[0] == "vec" else None
+            v, vty, vok = self.emit(e[1], env, inner)
+            c, cty, cok = self.emit(e[2], env, "usize")
+            self.unify(cty, "usize", "vec! length")
+            return f"(List.replicate {paren(c)} {paren(v)})", ("vec", vty), self.conj(vok, cok)
+        if k == "range":
+            raise Unsupported("range expression outside the supported idioms")
+        if k == "path" and e[1] == ["PARALLELIZATION_CUTOFF"] and X["opaque"] and X.get("cutoff_static_ok") \
+                and "PARALLELIZATION_CUTOFF" not in env and "cutoff" in env:
+            return env["cutoff"][0], "usize", None
         if k == "index":
             base = e[1]
             if not (base[0] == "path" and len(base[1]) == 1 and base[1][0] not in env and base[1][0] in CTX["tables"]):
@@ -752,6 +804,10 @@ class BT4Translator(B.BfeFnTranslator):
                 return self.do_foreach(stmts[i], stmts, i, env, k, ctl)
             if kind == "letelse" and stmts[i][2][0] == "someref":
                 return self.do_letelse_nextback(stmts[i], stmts, i, env, k, ctl)
+            if kind == "copyslice" and stmts[i][2][0] == "slice":
+                return self.do_copyslice4(stmts[i], stmts, i, env, k, ctl)
+            if kind == "mcallstmt" and stmts[i][1][2] == "collect_into_vec":
+                return self.do_parmap(stmts[i], stmts, i, env, k, ctl)
             if kind == "mcallstmt" and stmts[i][1][2] == "push":
                 # `v.push(e)` for element types the base statement does not know (digests, field elements)
                 _, recv, mname, args = stmts[i][1]
@@ -770,6 +826,92 @@ class BT4Translator(B.BfeFnTranslator):
                         v = f"{ln} ++ [{a}]"
                         return self.let_(ln, v, bt), self.let_ok(ln, v, aok, bok)
         return B.BfeFnTranslator.seq(self, stmts, i, env, k, ctl)
+
+    def do_copyslice4(self, st, stmts, i, env, k, ctl):
+        """`a[i..j].clone_from_slice(&b[..k]);` with a slice as the source"""
+        em = self.em
+        _, sl, src, _ = st
+        em.check_no_partial(src)
+        em.check_no_partial(sl)
+        t, ety, name = em.array_base(sl[1], env)
+        s, sty, sok, sln = em.emit_slice(src, env)
+        em.unify(sty[1], ety, "clone_from_slice")
+        _, _, slok, ln = em.emit_slice(sl, env)
+        hi, _, _ = em.emit(sl[3], env, "usize")
+        if sl[2] is None:
+            val = f"{paren(s)} ++ {t}.drop {paren(hi)}"
+        else:
+            lo, _, _ = em.emit(sl[2], env, "usize")
+            val = f"{t}.take {paren(lo)} ++ {paren(s)} ++ {t}.drop {paren(hi)}"
+        ok = self.conj(sok, slok, f"({sln} == {ln})")
+        bt, bok = self.seq(stmts, i + 1, dict(env), k, ctl)
+        return self.let_(t, val, bt), self.let_ok(t, val, ok, bok)
+
+    def do_parmap(self, st, stmts, i, env, k, ctl):
+        """`(a..b).into_par_iter().map(|i| { .. }).collect_into_vec(&mut v);`: the closure only reads its environment and
+        rayon's indexed collect puts result `i` in slot `i`, so the statement is `v = (a..b).map(closure).collect()`"""
+        em = self.em
+        m = st[1]
+        tgt = m[3][0]
+        if not (len(m[3]) == 1 and tgt[0] == "mutref" and tgt[1][0] == "path" and len(tgt[1][1]) == 1
+                and tgt[1][1][0] in env and env[tgt[1][1][0]][0] is not None):
+            raise Unsupported("collect_into_vec target")
+        tn = tgt[1][1][0]
+        mp = m[1]
+        if not (mp[0] == "mcall" and mp[2] == "map" and len(mp[3]) == 1 and mp[3][0][0] == "closure"
+                and mp[1][0] == "mcall" and mp[1][2] == "into_par_iter" and not mp[1][3] and mp[1][1][0] == "range"):
+            raise Unsupported("collect_into_vec on anything but `(a..b).into_par_iter().map(closure)`")
+        clo = mp[3][0]
+        rng = mp[1][1]
+        if not (len(clo[1]) == 1 and clo[1][0][0] == "pid"):
+            raise Unsupported("closure parameter")
+        var = clo[1][0][1]
+        body = clo[2][1] if clo[2][0] == "block" else [("tail", clo[2])]
+        if L.assigned_outer(body, {var}):
+            raise Unsupported("closure of a parallel map that assigns a captured variable")
+        fl = {"bad": False}
+
+        def f(s_, _):
+            if s_[0] in ("return", "break", "continue", "while", "loop", "for", "foreach", "letcall", "callstmt"):
+                fl["bad"] = True
+        L.walk_stmts(body, f)
+        if fl["bad"] or self.is_partial_block(body):
+            raise Unsupported("closure of a parallel map with control flow / calls that may not terminate")
+        em.check_no_partial(rng[1])
+        em.check_no_partial(rng[2])
+        lo, loty, look = em.emit(rng[1], env, "usize")
+        hi, hity, hiok = em.emit(rng[2], env, "usize")
+        em.unify(loty, "usize", "range")
+        em.unify(hity, "usize", "range")
+        env2 = dict(env)
+        env2.pop(var, None)
+        iv = em.fresh(var, env2)
+        env2[var] = (iv, "usize")
+        res = {}
+
+        def value(e_, env3):
+            em.check_no_partial(e_)
+            t, ty, ok = em.emit(e_, env3, None)
+            res["ty"] = ty
+            return t, ok
+
+        def never(env3):
+            raise Unsupported("closure body without a value")
+
+        def noret(e_, env3):
+            raise Unsupported("return inside a closure")
+        bt, bok = self.seq(body, 0, env2, K(never, value), Ctl(noret))
+        vn, vty = env[tn][0], em.resolve(env[tn][1])
+        if not (isinstance(vty, tuple) and vty[0] == "vec"):
+            raise Unsupported("collect_into_vec into a non-Vec")
+        nty = ("vec", em.unify(vty[1], res["ty"], "collect_into_vec"))
+        rl = f"(List.range' {paren(lo)} ({hi} - {lo}))"
+        val = f"{rl}.map (fun {iv} =>\n  {bt})"
+        ok = self.conj(look, hiok, (f"{rl}.all (fun {iv} =>\n  {bok})" if bok else None))
+        env3 = dict(env)
+        env3[tn] = (vn, nty)
+        rt, rok = self.seq(stmts, i + 1, env3, k, ctl)
+        return self.let_(vn, val, rt), self.let_ok(vn, val, ok, rok)
 
     def do_letcall(self, st, stmts, i, env, k, ctl):
         em = self.em
@@ -1044,7 +1186,12 @@ def translate_fn4(src, rust_name, lname, rel, consts, fns, pfns, fuel, after=Non
     inouts = []
     params, mut_self = L.parse_params(params_text, probe, self_ty, inouts)
     params = list(pre_params) + params
-    ret_ast = L.parse_ret(ret_text, probe)
+    ret_ast = None
+    if ret_text.strip():
+        rp = BT4Parser(tokenize(ret_text))
+        ret_ast = rp.parse_type()
+        if rp.peek()[0] != "eof":
+            raise Unsupported("return type")
     tr = BT4Translator(lname, rust_name, params, ret_ast, body, consts, fns, pfns, fuel, rel, self_ty, mut_self)
     tr.inouts = inouts
     text = tr.translate()
@@ -1225,6 +1372,7 @@ def run_inner(status, changed, fns, read_src):
         run_group4(status, changed, "MmrPeaksLoops", sb_rel + ", " + sh_rel, ["TF.Gen.MmrIndex", "TF.Model.RustIter"], pre,
                    mmr_specs, read_src, dict(ifns), {})
         mconsts = {k: (cst[k], "usize") for k in ("ROOT_INDEX",) if k in cst}
+        X["cutoff_static_ok"] = bool(re.search(r"static\s+ref\s+PARALLELIZATION_CUTOFF\s*:\s*usize\s*=", read_src(mt_rel) or ""))
         merkle_specs = [
             dict(lname="merkle_from_digests", rname="from_digests", rel=mt_rel, after=r"impl MerkleTreeMaker for CpuParallel",
                  fuel="(digests.length + 1)", pre=HD + [("digest_default", "digest"), ("cutoff", "usize")], consts=mconsts, free=True),
